@@ -27,6 +27,7 @@ def build_scenario(rng: random.Random, mode: str):
     from eudoxia.utils import Priority
 
     tps = rng.choice([1, 2, 4, 5, 10])
+    huge = False
     U = 4 * tps
     Q = F(5, tps)            # the quantum: 20 units, a quarter of the memory read in one I/O tick; a*Q is an exact float
     if mode == "swarm":        # many small containers start at once in an overcommitted pool: ten and more victims in one tick
@@ -44,6 +45,11 @@ def build_scenario(rng: random.Random, mode: str):
         ram = Q * rng.choice([2, 8, 16, 32, 64, 10])
         oc = rng.random() < 0.5
         multi = rng.random() < 0.7
+    if mode == "mixed" and rng.random() < 0.08:
+        # a very large pool: a batch that oversells its RAM by one quarter GB is a relative excess of 1e-9
+        tps, U, Q = 1, 4, F(5)
+        npools, ram, oc = 1, F(2**28), False
+        huge = True
     ex = Executor(num_pools=npools, cpus_per_pool=cpu, ram_gb_per_pool=float(ram), ticks_per_second=tps,
                   allow_memory_overcommit=oc, multi_operator_containers=multi)
     idx = PipeIndex()
@@ -82,7 +88,7 @@ def build_scenario(rng: random.Random, mode: str):
             ops.append(o)
         p.runtime_status()
         idx.add(p)
-    return ex, idx, exact, dict(tps=tps, U=U, npools=npools, cpu=cpu, ram=ram, oc=oc, multi=multi, Q=Q)
+    return ex, idx, exact, dict(tps=tps, U=U, npools=npools, cpu=cpu, ram=ram, oc=oc, multi=multi, Q=Q, huge=huge)
 
 
 def run_one(seed: int, tid: int, mode: str):
@@ -158,10 +164,12 @@ def run_one(seed: int, tid: int, mode: str):
                 c = rng.choice([1, 1, 2])
                 r = Q * rng.choice([1, 3, 4, 5, 8, 9, 9, 12, 13, 16, 21])
             else:
-                c = rng.choice([1, 1, 2, max(1, R.avail_cpu_pool), cpu]) if valid or rng.random() < 0.95 else rng.choice([0, cpu + 1])
+                c = rng.choice([1, 1, 2, max(1, R.avail_cpu_pool), cpu]) if valid or rng.random() < 0.9 else rng.choice([0, cpu + 1, R.avail_cpu_pool + 1])
                 r = (rng.choice([Q * rng.choice([1, 2, 4, 5, 8, 9, 12, 13, 16, 21, 24, 32]),
                                  F(R.avail_ram_pool) if R.avail_ram_pool > 0 else Q, ram])
-                     if valid or rng.random() < 0.97 else F(0))
+                     if valid or rng.random() < 0.94 else rng.choice([F(0), F(R.avail_ram_pool) + F(1, k["U"])]))
+            if k["huge"] and rng.random() < 0.35 and R.avail_ram_pool > 0:
+                r = F(R.avail_ram_pool) + F(1, k["U"])          # oversold by a relative 1e-9
             if valid:
                 used = sum(x[2] for x in specs if x[4] == pool)
                 usedr = sum(x[3] for x in specs if x[4] == pool)
@@ -185,6 +193,8 @@ def run_one(seed: int, tid: int, mode: str):
                 if not ok:
                     continue
             specs.append((pi, sel, c, r, pool, cross))
+        if k["huge"]:
+            specs = specs[:1]          # keep every sum below 2^31 units
         # S phase: build the Assignment objects (this already moves operators to ASSIGNED)
         asg, asg_json, raised = [], [], None
         for (pi, sel, c, r, pool, cross) in specs:
